@@ -129,6 +129,68 @@ func (g GenOpts) bodyOp(rnd *rand.Rand, types []string, owner Op) Op {
 	}
 }
 
+// below returns the greatest value that is smaller than every accepted value.
+func below(accept []string) (string, bool) {
+	best, ok := "", false
+	for _, v := range vals {
+		lower := true
+		for _, a := range accept {
+			if v >= a {
+				lower = false
+			}
+		}
+		if lower && (!ok || v > best) {
+			best, ok = v, true
+		}
+	}
+	return best, ok
+}
+
+// Cascade generates a single-goroutine script aimed at one situation: a publish of type T is being delivered
+// to a list of three to six handlers when one of them publishes T again, and that inner publish changes the
+// registry (it fires and retires Once handlers, its handlers unsubscribe or subscribe) before the outer
+// delivery continues with the rest of its snapshot.  The publishing handler is a Once handler or one whose
+// filter only accepts values above the one it publishes, so every cascade is finite.
+func (g GenOpts) Cascade(rnd *rand.Rand) Script {
+	types := pickTypes(rnd, 2)
+	t := types[0]
+	s := Script{Cfg: pick(rnd, g.Cfgs)}
+	n := 3 + rnd.IntN(4)
+	var ops []Op
+	for i := 0; i < n; i++ {
+		o := Op{Op: "sub", T: t, Fn: pick(rnd, gen.Fns)}
+		o.Once = rnd.Float64() < 0.4
+		o.Async = rnd.Float64() < g.Async
+		if rnd.Float64() < 0.3 {
+			o.Filt = true
+			o.Accept = [][]string{{"c"}, {"b", "c"}, {"b"}, {"a", "b", "c"}}[rnd.IntN(4)]
+		}
+		if i < n-1 && rnd.IntN(3) == 0 { // a publisher (never the last handler: something must follow it)
+			switch {
+			case o.Once:
+				o.Body = []Op{{Op: "pub", T: t, Val: pick(rnd, vals), Ctx: "bg"}}
+			default:
+				if !o.Filt || len(o.Accept) == 3 {
+					o.Filt, o.Accept = true, [][]string{{"c"}, {"b", "c"}}[rnd.IntN(2)]
+				}
+				if v, ok := below(o.Accept); ok {
+					o.Body = []Op{{Op: "pub", T: t, Val: v, Ctx: "bg"}}
+				}
+			}
+		} else if rnd.IntN(6) == 0 {
+			o.Body = []Op{g.bodyOp(rnd, types, o)}
+		}
+		ops = append(ops, o)
+	}
+	for i, m := 0, 1+rnd.IntN(3); i < m; i++ {
+		ops = append(ops, Op{Op: "pub", T: t, Val: []string{"c", "c", "b", "a"}[rnd.IntN(4)], Ctx: "bg"})
+		ops = append(ops, Op{Op: "count", T: t})
+	}
+	ops = append(ops, Op{Op: "wait"})
+	s.Procs = append(s.Procs, ops)
+	return s
+}
+
 // Random generates one script.
 func (g GenOpts) Random(rnd *rand.Rand) Script {
 	types := pickTypes(rnd, g.Types)
